@@ -190,6 +190,35 @@ pub fn run(cfg: &Cfg, rep: &mut Report) {
             }
         }
     }
+    // enumerants the LIVE enumeration declares beyond the frozen reference (a grammar update): they deviate from
+    // the pinned grammar by definition, and for them reflection can only be compared with the parser
+    let mut live_only: Vec<(K, u32, String)> = vec![];
+    for k in [K::ExecutionMode, K::Decoration] {
+        if let Some(e) = decls::ENUMS.iter().find(|e| e.name == kind_name(k)) {
+            for (name, v) in e.variants {
+                if !d.enum_declared(k, *v) {
+                    live_only.push((k, *v, name.to_string()));
+                }
+            }
+        }
+    }
+    let live_ref = &live_only;
+    run_stage(cfg, rep, "live-enumerants", live_only.len() as u64, |idx, _rng, r| {
+        let (k, v, name) = &live_ref[idx as usize];
+        let rp = || crate::util::replay_ref(cfg, "live-enumerants", idx).set("kind", kind_name(*k)).set("value", *v);
+        r.violation(format!("C17:reference-enumerant:{}:{}", kind_name(*k), v), format!("{}::{} = {} is declared by the live tree but not by the frozen reference (pinned grammar)", kind_name(*k), name, v), rp());
+        if let Some(op) = decls::mk_enum_operand(*k, *v) {
+            let refl: Vec<&str> = op.additional_operands().iter().map(|l| parsed_variant(l.kind)).collect();
+            for ci in 0..carriers(*k).len() {
+                if let Ok((accepted, parsed)) = observe_parser(*k, *v, ci, false) {
+                    let pk: Vec<&str> = parsed.iter().map(|s| s.as_str()).collect();
+                    if accepted.is_empty() || pk != refl {
+                        r.violation(format!("C17:reflection-vs-parser:{}:{}", kind_name(*k), v), format!("{}::{} = {} in Op{}: additional_operands() = {:?}, parser consumed {:?} (accepted filler counts {:?})", kind_name(*k), name, v, carriers(*k)[ci].0, refl, parsed, accepted), rp());
+                    }
+                }
+            }
+        }
+    });
     let cases_ref = &cases;
     run_stage(cfg, rep, "params", cases.len() as u64, |idx, _rng, r| {
         let (k, v) = cases_ref[idx as usize];
